@@ -234,7 +234,7 @@ def run(ctx):
                 else:
                     ctx.ob("C07.frame", f, site, True)
         ctx.count("cst_list_mutations", n_mut)
-        ctx.floor("mutations of the CST list", n_mut, 5)
+        ctx.floor("mutations of the CST list", n_mut, 2)
         v = norm(ed[0].value)
         ok = "isinstance(" in v and "TripleQuoted" in v and "is_docstr" in v and " and " in v
         ctx.ob("C07.frame", mr, ed[0], ok, "" if ok else "the existing-docstring flag must require a TripleQuoted node AND its is_docstr flag")
@@ -307,7 +307,7 @@ def run(ctx):
                         why = "DocTrans assigns `{}`: only annotations, type comments, returns and visited bodies may change".format(chain)
                     ctx.ob("C07.writeset", f, n, ok, "" if ok else why)
         ctx.count("doctrans_ast_field_stores", n_w)
-        ctx.floor("AST field stores in DocTrans", n_w, 6)
+        ctx.floor("AST field stores in DocTrans", n_w, 4)
         if not any(q == cls + ".visit_AsyncFunctionDef" for q in index.funcs):
             ctx.note("DocTrans has no visit_AsyncFunctionDef: async functions are left untouched (program unchanged, docstrings not converted)")
 
